@@ -1,12 +1,43 @@
 /- Dispatcher for the driver components of the discrete models (extended per property). -/
 import FFVerif.Model.Numeric
 import FFVerif.Model.Cache
+import FFVerif.Model.Proto
+import FFVerif.Model.Periodic
+import FFVerif.Model.Superop
+import FFVerif.Model.Analytic
 
 namespace FFVerif.Model
+open FFVerif FFVerif.Proto
 
 def handleMore (toks : List String) : String :=
   match toks with
   | ["cache", init, ops] => Cache.handleCache init ops
+  | ["periodic", mode, nA, N, nO, G, B, phases, L] =>
+    -- B (nA,N,nO), phases (nO), L (N,N); mode = spec | fallback
+    let nA := nA.toNat!; let N := N.toNat!; let nO := nO.toNat!; let G := G.toNat!
+    let b : Ten3 CF nA N nO := ten3C (parseFloats B) 0 nA N nO
+    let ph : Vec CF nO := vecC (parseFloats phases) 0 nO
+    let l : Mat CF N N := matC (parseFloats L) 0 N N
+    let S : Vector (Mat CF N N) nO := Vector.ofFn fun o =>
+      let T := Mat.smul ph[o] l
+      if mode == "fallback" then periodicFallback T G else geomSum T G
+    "ok " ++ showFloats (flatC3 (periodicApply b S))
+  | ["liouville", d, N, cast, U, C] =>
+    let d := d.toNat!; let N := N.toNat!
+    let r : Mat CF N N := liouville (matC (parseFloats U) 0 d d) (ten3C (parseFloats C) 0 N d d)
+      (cast == "1")
+    "ok " ++ showFloats (flatC2 r)
+  | ["choi", d, N, S, C] =>
+    let d := d.toNat!; let N := N.toNat!
+    let r := liouvilleToChoi (matC (parseFloats S) 0 N N) (ten3C (parseFloats C) 0 N d d)
+    "ok " ++ showFloats (flatC2 r)
+  | ["analytic", fam, n, z] =>
+    let n := n.toNat!; let z := f0 z
+    let v : Float :=
+      if fam == "FID" then Analytic.FID z else if fam == "SE" then Analytic.SE z
+      else if fam == "PDD" then Analytic.PDD z n else if fam == "CPMG" then Analytic.CPMG z n
+      else if fam == "CDD" then Analytic.CDD z n else Analytic.UDD (K := CF) z n
+    "ok " ++ showFloats #[v]
   | _ => "err bad-op"
 
 end FFVerif.Model
